@@ -265,7 +265,7 @@ def _run_mmasub(V, cfg, st, use_real_subsolv=False):
 
     def stub(epsimin, low, upp, alfa, beta, P, Q, a0, a, b, c, d, x0=None):
         rec.update(low=_arr(low), upp=_arr(upp), alfa=_arr(alfa), beta=_arr(beta), P=_arr(P), Q=_arr(Q), b=_arr(b),
-                   x0=_arr(x0), ncalls=rec.get("ncalls", 0) + 1)
+                   x0=_arr(x0), ncalls=rec.get("ncalls", 0) + 1, a0=a0, a=_arr(a), c=_arr(c), d=_arr(d))
         if V.symbolic:
             _ctx.current().stubs.add("pymoto.common.mma.subsolv (contract stub: returns any x with alfa <= x <= beta)")
         x = V.reals("xs", n)
@@ -281,7 +281,7 @@ def _run_mmasub(V, cfg, st, use_real_subsolv=False):
 
     def recorder(epsimin, low, upp, alfa, beta, P, Q, a0, a, b, c, d, x0=None):
         rec.update(low=_arr(low), upp=_arr(upp), alfa=_arr(alfa), beta=_arr(beta), P=_arr(P), Q=_arr(Q), b=_arr(b),
-                   x0=_arr(x0), ncalls=rec.get("ncalls", 0) + 1)
+                   x0=_arr(x0), ncalls=rec.get("ncalls", 0) + 1, a0=a0, a=_arr(a), c=_arr(c), d=_arr(d))
         return real_subsolv(epsimin, low, upp, alfa, beta, P, Q, a0, a, b, c, d, x0=x0)
 
     mm.subsolv = recorder if use_real_subsolv else stub
@@ -316,6 +316,12 @@ def sc_mmasub(V, P, cfg):
     cl.arr_eq("x0==xval", rec["x0"], xval, "plumbing")
     cl.arr_eq("low-arg==self.low", low, mma.low, "plumbing")
     cl.arr_eq("upp-arg==self.upp", upp, mma.upp, "plumbing")
+    # the constants of the sub-problem (a0 z + sum c_i y_i + d_i y_i^2 / 2) reach the solver in their own slots
+    if "c" in rec:
+        cl.eq("a0-arg==self.a0", rec["a0"], mma.a0, "plumbing")
+        cl.arr_eq("a-arg==self.a", rec["a"], np.asarray(mma.a), "plumbing")
+        cl.arr_eq("c-arg==self.c", rec["c"], np.asarray(mma.c), "plumbing")
+        cl.arr_eq("d-arg==self.d", rec["d"], np.asarray(mma.d), "plumbing")
     shapes_ok = np.shape(Pm) == (m + 1, n) and np.shape(Qm) == (m + 1, n) and np.shape(b) == (m,) and np.shape(xnew) == (n,)
     cl.true("P.shape", shapes_ok, "plumbing")
     if shapes_ok:
